@@ -166,7 +166,9 @@ def untracked_all(index, wd):
 
 def untracked_normal(index, wd):
     """--untracked-files=normal: a directory without any tracked file below it is shown once, as
-    'dir/'; empty directories are never shown."""
+    'dir/'; empty directories are never shown.  A directory standing where the index has a *file*
+    of the same name is not shown at all (wt-status drops names for which the index has an entry
+    once the trailing slash is removed) — observed with git 2.39.5, and only in this mode."""
     out = set()
     for p in untracked_all(index, wd):
         shown = p
@@ -175,7 +177,24 @@ def untracked_normal(index, wd):
             if not any(n.startswith(pre) for n in index):
                 shown = pre
                 break
+        if shown.endswith(b"/") and shown[:-1] in index:
+            continue
         out.add(shown)
+    return sorted(out)
+
+
+def untracked_normal_hidden(index, wd):
+    """The directories git's normal mode hides although they hold untracked files (see above).  The
+    property statement ("exactly the paths that differ") and git disagree here, so an implementation
+    may list them or not."""
+    out = set()
+    for p in untracked_all(index, wd):
+        for q in prefixes(p):
+            pre = q + b"/"
+            if not any(n.startswith(pre) for n in index):
+                if q in index:
+                    out.add(pre)
+                break
     return sorted(out)
 
 
